@@ -17,6 +17,34 @@ from .. import aoef as A
 from .. import aoefgen as GG
 
 
+
+def earlier_version(x, memo):
+    """a copy of an object graph in which every object keeps its identifier but has other content: the last tag, note and
+    feature of every list is missing and free-text fields differ (built with model_copy, like an edit in an application)"""
+    from pydantic import BaseModel
+
+    if isinstance(x, BaseModel):
+        if id(x) in memo:
+            return memo[id(x)]
+        upd = {}
+        for name in type(x).model_fields:
+            v = getattr(x, name)
+            nv = earlier_version(v, memo)
+            if name in ("tags", "features", "notes") and isinstance(nv, list) and nv:
+                nv = nv[:-1]
+            elif name in ("license", "description", "rights", "message") and isinstance(v, str):
+                nv = v + " (draft)"
+            upd[name] = nv
+        y = x.model_copy(update=upd)
+        memo[id(x)] = y
+        return y
+    if isinstance(x, list):
+        return [earlier_version(e, memo) for e in x]
+    if isinstance(x, tuple):
+        return tuple(earlier_version(e, memo) for e in x)
+    return x
+
+
 class Obs(dict):
     """observation: the dict part goes to replay files, `.x` holds the heavy in-memory extras"""
 
@@ -76,7 +104,15 @@ class AoefProp(Prop):
 
     def cases(self, rng, tier):
         n = 30 if tier == "quick" else 300
-        return [self._case(rng, root, tier) for root in A.ROOT_NAMES for _ in range(n)]
+        out = [self._case(rng, root, tier) for root in A.ROOT_NAMES for _ in range(n)]
+        # history: an earlier version of the same collection (same identifiers everywhere, other content: fewer tags, notes and
+        # features, other free-text fields) was saved before in this process — an autosave, a correction of labels
+        for root in A.ROOT_NAMES:
+            for _ in range(max(3, n // 4)):
+                c = self._case(rng, root, tier)
+                c["before"] = True
+                out.append(c)
+        return out
 
     # ------------------------------------------------------------------ run
     def run(self, case):
@@ -94,6 +130,10 @@ class AoefProp(Prop):
         o["nodes"] = A.node_size(o.x["node"])
         cur = obj
         o["cycles"] = []
+        if case.get("before"):
+            p0 = self.dir / f"c{self._n}_before.json"
+            guarded(io.save, earlier_version(obj, {}), p0, audio_dir=ad)
+            p0.unlink(missing_ok=True)
         for cyc in range(case.get("cycles", 1)):
             st, _ = guarded(io.save, cur, p, audio_dir=ad)
             if st != "ok":
